@@ -20,6 +20,7 @@ mod bcmodel;
 mod p09;
 mod p10;
 mod p13;
+mod p14;
 mod refval;
 
 use fw::*;
@@ -35,6 +36,7 @@ fn make(id: &str, tier: Tier) -> Option<Box<dyn Property>> {
         "C10" => Box::new(p10::P10::new(tier)),
         "C07" => Box::new(p07::P07::new(tier)),
         "C13" => Box::new(p13::P13::new(tier)),
+        "C14" => Box::new(p14::P14::new(tier)),
         "C09" => Box::new(p09::P09::new(tier)),
         _ => return None,
     })
